@@ -6,14 +6,14 @@ import CssVerif.Gen.C20Tables
 
 Hand transcription, statement by statement, of
 
-* `_getTextTypeByMediaType` (`:186-218`) — as an interpreter of the `if/elif` ladder that the translator reads
+* `_getTextTypeByMediaType` (`:188-221`) — as an interpreter of the `if/elif` ladder that the translator reads
   from the source (`Gen.C20.ladder`: lists, regexes, literals, returned constants, in source order),
-* `_getTextType` (`:221-231`), `encodingByMediaType` (`:234-263`), `getHTTPInfo` (`:266-286`, after the two
-  calls on the message object), the tail of `getMetaInfo` (`:309-323`, after the HTML parser and the
+* `_getTextType` (`:224-234`), `encodingByMediaType` (`:237-266`), `getHTTPInfo` (`:269-289`, after the two
+  calls on the message object), the tail of `getMetaInfo` (`:312-329`, after the HTML parser and the
   `email.message.Message` parameter parser),
-* `detectXMLEncoding` (`:326-423`) on a stream (content, position, text/binary), with the BOM table, the two
+* `detectXMLEncoding` (`:332-442`) on a stream (content, position, text/binary), with the BOM table, the two
   reads, the declaration regex (split at the group `encstr`) and the restores of the position,
-* `getEncodingInfo` (`:481-679`): text defaulting, which extractor is consulted for which text type, the
+* `getEncodingInfo` (`:500-698`): text defaulting, which extractor is consulted for which text type, the
   precedence chain and the mismatch flag.
 
 Inputs that are *not* modelled but given to the model: what the message object of the response answers
@@ -71,7 +71,7 @@ def dictGet {α β : Type} [BEq α] (k : α) : List (α × β) → Option β
 
 /-! ## media-type classification -/
 
-/-- the test of one rung (`:203-215`) on the stripped, lower-cased media type -/
+/-- the test of one rung (`:205-218`) on the stripped, lower-cased media type -/
 def ruleHits : C20.Rule → Cps → Bool
   | .listRe lits re _, mt => lits.contains mt || (re.first mt).isSome
   | .eq lit _, mt => mt == lit
@@ -87,17 +87,17 @@ def runLadder (mt : Cps) : List C20.Rule → Nat
   | [] => C20.elseType
   | r :: rs => if ruleHits r mt then ruleTy r else runLadder mt rs
 
-/-- `_getTextTypeByMediaType(media_type)` (`:186-218`) -/
+/-- `_getTextTypeByMediaType(media_type)` (`:188-221`) -/
 def textTypeByMediaType : Option Cps → Nat
   | none => C20.noneType                       -- `if not media_type`
   | some [] => C20.noneType
   | some mt => runLadder (lower (strip mt)) C20.ladder
 
-/-- `_getTextType(text)` (`:221-231`) -/
+/-- `_getTextType(text)` (`:224-234`) -/
 def textTypeOfText (text : Cps) : Nat :=
   if contains C20.sniffNeedle (text.take C20.sniffWindow) then C20.sniffYes else C20.sniffNo
 
-/-- `encodingByMediaType(media_type)` (`:234-263`): `defaultencodings.get(texttype, None)` -/
+/-- `encodingByMediaType(media_type)` (`:237-266`): `defaultencodings.get(texttype, None)` -/
 def encodingByMediaType (mt : Option Cps) : Option Cps :=
   (dictGet (textTypeByMediaType mt) C20.defaultEncodings).join
 
@@ -111,9 +111,8 @@ structure Stream where
 deriving Repr, BEq, DecidableEq
 
 inductive Err where
-  | valueError      -- tuple unpacking of fewer than four items (`:368`)
-  | typeError       -- `ord(int)` on the items of a `bytes` object (`:368`)
-  | attributeError  -- `.lower()` on a non-string, `None.read()`
+  | valueError      -- tuple unpacking of fewer than four items
+  | attributeError  -- `None.read()`
   | extractor       -- the (unmodelled) HTML parser stage of `getMetaInfo` raised
 deriving Repr, BEq, DecidableEq
 
@@ -128,7 +127,7 @@ def bomGet (key : List (Option Nat)) : Option Cps :=
   | some name => if name.isEmpty then none else some name
   | none => none
 
-/-- the three lookups (`:371-375`): four bytes, three bytes, two bytes -/
+/-- the three lookups (`:386-390`): four bytes, three bytes, two bytes -/
 def bomDetect (b1 b2 b3 b4 : Nat) : Option Cps :=
   match bomGet [some b1, some b2, some b3, some b4] with
   | some n => some n
@@ -143,32 +142,31 @@ def declSpans (buf : Cps) : List (Nat × Nat) :=
     (C20.declGrp.ms (buf.drop l1)).flatMap fun l2 =>
       (C20.declPost.ms (buf.drop (l1 + l2))).map fun _ => (l1, l2)
 
-/-- `xmlDeclRE.search(buffer)` and `match.group("encstr")` (`:407-413`) -/
+/-- `xmlDeclRE.search(buffer)` and `match.group("encstr")` (`:426-432`) -/
 def declMatch (buf : Cps) : Option Cps :=
   match declSpans buf with
   | [] => none
   | p :: _ => some ((buf.drop p.1).take p.2)
 
-/-- `detectXMLEncoding(fp, includeDefault)` on a file object (`:366-423`) -/
+/-- `detectXMLEncoding(fp, includeDefault)` on a file object. What a binary file object hands out is decoded
+as latin-1 (same code points), so `binary` plays no role any more; it is kept so that the theorems can say so. -/
 def detectXMLStream (fp : Stream) (includeDefault : Bool) : XmlRes :=
-  let oldFP := fp.pos                                         -- :366
-  let head := fp.content.take C20.bomRead                     -- :367-368 seek(0); read(4)
-  let fp1 := { fp with pos := head.length }
-  if fp.binary && !head.isEmpty then ⟨.error .typeError, fp1⟩ -- map(ord, <bytes>)
-  else match head with
+  let oldFP := fp.pos                                         -- tell()
+  let head := fp.content.take C20.bomRead                     -- seek(0); read(4); bytes -> latin-1
+  match head with
     | [b1, b2, b3, b4] =>
       match bomDetect b1 b2 b3 b4 with
-      | some name => ⟨.ok (some name), { fp with pos := oldFP }⟩           -- :378-382
+      | some name => ⟨.ok (some name), { fp with pos := oldFP }⟩           -- seek(oldFP); return
       | none =>
-        let buffer := fp.content.take C20.declRead                          -- :391-392
-        match declMatch buffer with                                         -- :410; :411 seek(oldFP)
-        | some enc => ⟨.ok (some (lower enc)), { fp with pos := oldFP }⟩    -- :413-416
+        let buffer := fp.content.take C20.declRead                          -- seek(0); read(2048); bytes -> latin-1
+        match declMatch buffer with                                         -- search; seek(oldFP)
+        | some enc => ⟨.ok (some (lower enc)), { fp with pos := oldFP }⟩
         | none =>
           if includeDefault then ⟨.ok (some C20.xmlDefault), { fp with pos := oldFP }⟩
           else ⟨.ok none, { fp with pos := oldFP }⟩
-    | _ => ⟨.error .valueError, fp1⟩                           -- unpacking (`:368`)
+    | _ => ⟨.error .valueError, { fp with pos := oldFP }⟩       -- unpacking fails: seek(oldFP); raise
 
-/-- `detectXMLEncoding(text)` for a `str` or `bytes` document: `io.StringIO(text)` (`:348-352`) -/
+/-- `detectXMLEncoding(text)` for a `str` or `bytes` document: `io.StringIO(text)` (`:354-358`) -/
 def detectXML (text : Cps) (includeDefault : Bool) : Except Err (Option Cps) :=
   (detectXMLStream ⟨text, 0, false⟩ includeDefault).out
 
@@ -181,31 +179,32 @@ structure Resp where
   body : Option Cps          -- `response.read()`; `none` = it raised `OSError`
 deriving Repr
 
-/-- `getHTTPInfo(response)` (`:276-286`) -/
+/-- `getHTTPInfo(response)` (`:279-289`) -/
 def getHTTPInfo (r : Resp) : Option Cps × Option Cps :=
   (r.mediaType, if truthy r.charset then r.charset.map lower else r.charset)
 
-/-- `Message.get_param('charset')`: missing, a string, or an RFC 2231 triple -/
+/-- `Message.get_param('charset')`: missing, a string, or an RFC 2231 triple — for the triple the model is given what
+`email.utils.collapse_rfc2231_value` makes of it -/
 inductive Param where
   | none
   | str (s : Cps)
-  | tuple
+  | tuple (collapsed : Cps)
 deriving Repr
 
 /-- what the HTML parser and the parameter parser deliver to the tail of `getMetaInfo` -/
 inductive MetaRaw where
   | raises                                   -- the parser stage raised (not modelled)
-  | absent                                   -- `p.content_type` is falsy (`:320-321`)
+  | absent                                   -- `p.content_type` is falsy (`:326-327`)
   | found (mediaType : Cps) (charset : Param)
 deriving Repr
 
-/-- tail of `getMetaInfo` (`:309-323`) -/
+/-- tail of `getMetaInfo` (`:312-329`) -/
 def getMetaInfo : MetaRaw → Except Err (Option Cps × Option Cps)
   | .raises => .error .extractor
   | .absent => .ok (none, none)
   | .found mt .none => .ok (some mt, none)
   | .found mt (.str s) => .ok (some mt, some (if s.isEmpty then s else lower s))
-  | .found _ .tuple => .error .attributeError        -- `encoding.lower()` on a tuple (`:316`)
+  | .found mt (.tuple s) => .ok (some mt, some (if s.isEmpty then s else lower s))   -- collapsed first
 
 /-! ## `getEncodingInfo` -/
 
@@ -219,7 +218,7 @@ structure Info where
   xmlEncoding : Option Cps
 deriving Repr, BEq, DecidableEq
 
-/-- `try: detectXMLEncoding(..) except (AttributeError, ValueError): None` (`:593-603`) -/
+/-- `try: detectXMLEncoding(..) except (AttributeError, ValueError): None` (`:612-622`) -/
 def sniffCaught (text : Cps) (includeDefault : Bool) : Except Err (Option Cps) :=
   match detectXML text includeDefault with
   | .ok r => .ok r
@@ -227,26 +226,26 @@ def sniffCaught (text : Cps) (includeDefault : Bool) : Except Err (Option Cps) :
   | .error .attributeError => .ok none
   | .error e => .error e
 
-/-- `a and b and a != b` on two encodings (`:641-672`) -/
+/-- `a and b and a != b` on two encodings (`:660-691`) -/
 def differ (a b : Option Cps) : Bool := truthy a && truthy b && a != b
 
-/-- the precedence chain (`:611-637`) -/
+/-- the precedence chain (`:630-656`) -/
 def chain (tt : Nat) (http xml metaE byMediaType tryEnc : Option Cps) : Option Cps :=
-  let e := http                                                   -- :611
-  if tt == C20.XML_APPLICATION_TYPE then                          -- :616
+  let e := http                                                   -- :630
+  if tt == C20.XML_APPLICATION_TYPE then                          -- :635
     if !truthy e then xml else e
-  else if tt == C20.HTML_TEXT_TYPE then                           -- :622
+  else if tt == C20.HTML_TEXT_TYPE then                           -- :641
     let e := if !truthy e then metaE else e
     let e := if !truthy e then byMediaType else e
     let e := if !truthy e then tryEnc else e
     e
-  else if tt == C20.XML_TEXT_TYPE || tt == C20.TEXT_TYPE then     -- :631
+  else if tt == C20.XML_TEXT_TYPE || tt == C20.TEXT_TYPE then     -- :650
     if !truthy e then byMediaType else e
-  else if tt == C20.TEXT_UTF8 then                                -- :635
+  else if tt == C20.TEXT_UTF8 then                                -- :654
     if !truthy e then byMediaType else e
   else e
 
-/-- the document that is looked at (`:566-575`): the given text, else what `response.read()` returns;
+/-- the document that is looked at (`:585-594`): the given text, else what `response.read()` returns;
 `OSError` is swallowed (the text stays `None` and becomes `''`); without a response `None.read()` raises -/
 def effText (response : Option Resp) (text : Option Cps) : Except Err Cps :=
   match text, response with
@@ -254,28 +253,28 @@ def effText (response : Option Resp) (text : Option Cps) : Except Err Cps :=
   | none, some r => .ok (r.body.getD [])
   | none, none => .error .attributeError
 
-/-- `(http_media_type, http_encoding)` (`:584-585`) -/
+/-- `(http_media_type, http_encoding)` (`:603-604`) -/
 def httpOf : Option Resp → Option Cps × Option Cps
   | some r => getHTTPInfo r
   | none => (none, none)
 
-/-- the text type (`:586-589`) -/
+/-- the text type (`:605-608`) -/
 def typeOf (response : Option Resp) (text : Cps) : Nat :=
   match response with
   | some r => textTypeByMediaType (getHTTPInfo r).1
   | none => textTypeOfText text
 
-/-- `xml_encoding` (`:592-603`): two independent `if`s, the second one overwrites -/
+/-- `xml_encoding` (`:611-622`): two independent `if`s, the second one overwrites -/
 def xmlOf (tt : Nat) (text : Cps) : Except Err (Option Cps) :=
   match (if tt == C20.XML_APPLICATION_TYPE then sniffCaught text true else .ok none) with
   | .error e => .error e
   | .ok x1 => if tt == C20.HTML_TEXT_TYPE then sniffCaught text false else .ok x1
 
-/-- `(meta_media_type, meta_encoding)` (`:606-607`) -/
+/-- `(meta_media_type, meta_encoding)` (`:625-626`) -/
 def metaOf (tt : Nat) (metaRaw : MetaRaw) : Except Err (Option Cps × Option Cps) :=
   if tt == C20.HTML_TEXT_TYPE || tt == C20.TEXT_TYPE then getMetaInfo metaRaw else .ok (none, none)
 
-/-- `:611-679` -/
+/-- `:630-698` -/
 def assemble (tt : Nat) (http : Option Cps × Option Cps) (xml : Option Cps) (metaI : Option Cps × Option Cps)
     (tryEnc : Option Cps) : Info :=
   { encoding := chain tt http.2 xml metaI.2 (encodingByMediaType http.1) tryEnc,
@@ -283,7 +282,7 @@ def assemble (tt : Nat) (http : Option Cps × Option Cps) (xml : Option Cps) (me
     httpMediaType := http.1, httpEncoding := http.2,
     metaMediaType := metaI.1, metaEncoding := metaI.2, xmlEncoding := xml }
 
-/-- `getEncodingInfo(response, text)` (`:566-679`); `url` and the log are not modelled -/
+/-- `getEncodingInfo(response, text)` (`:585-698`); `url` and the log are not modelled -/
 def getEncodingInfo (response : Option Resp) (text : Option Cps) (metaRaw : MetaRaw) (tryEnc : Option Cps) :
     Except Err Info :=
   match effText response text with
